@@ -76,6 +76,11 @@ func FieldBytes(t *rapid.T, k spec.Kind, bad bool, label string) []byte {
 			if rapid.IntRange(0, 7).Draw(t, label+".zero") == 0 {
 				return b // all-zero: no date
 			}
+			if rapid.IntRange(0, 19).Draw(t, label+".leap") == 0 {
+				// 29 February where the rules differ: century years divisible by 400, ordinary leap years
+				spec.PutDate(b, spec.Civil{Y: rapid.SampledFrom([]int{2000, 2400, 1600, 400, 2024, 2096, 4, 9996}).Draw(t, label+".leap.year"), M: 2, D: 29})
+				return b
+			}
 			spec.PutDate(b, Civil(t, label))
 		} else {
 			c := Civil(t, label)
@@ -96,6 +101,10 @@ func FieldBytes(t *rapid.T, k spec.Kind, bad bool, label string) []byte {
 				}
 				if c.Y > 9999 {
 					c.Y = 2023
+				}
+				if rapid.Bool().Draw(t, label+".century") {
+					// divisible by 4 and by 100, not by 400
+					c.Y = rapid.SampledFrom([]int{1900, 2100, 2200, 2300, 2500, 1800, 1700, 100, 200, 300, 9900}).Draw(t, label+".century.year")
 				}
 				c.M, c.D = 2, 29
 			default:
